@@ -123,6 +123,7 @@ func (r *schemaLoader) resolveRef(ref *Ref, target interface{}, basePath string)
 	if ref.GetURL() == nil {
 		return nil
 	}
+	verifEv("resolve", ref.String(), basePath)
 
 	var (
 		res  interface{}
@@ -170,6 +171,7 @@ func (r *schemaLoader) load(refURL *url.URL) (interface{}, url.URL, bool, error)
 	debugLog("loading doc from: %s", normalized)
 
 	data, fromCache := r.cache.Get(normalized)
+	verifLoad(normalized, fromCache)
 	if fromCache {
 		return data, toFetch, fromCache, nil
 	}
@@ -184,6 +186,7 @@ func (r *schemaLoader) load(refURL *url.URL) (interface{}, url.URL, bool, error)
 		return nil, url.URL{}, false, err
 	}
 	r.cache.Set(normalized, doc)
+	verifEv("stored", normalized)
 
 	return doc, toFetch, fromCache, nil
 }
@@ -193,6 +196,7 @@ func (r *schemaLoader) load(refURL *url.URL) (interface{}, url.URL, bool, error)
 // It relies on a private context (which needs not be locked).
 func (r *schemaLoader) isCircular(ref *Ref, basePath string, parentRefs ...string) (foundCycle bool) {
 	normalizedRef := normalizeURI(ref.String(), basePath)
+	defer func() { verifCirc(normalizedRef, foundCycle, parentRefs) }()
 	if _, ok := r.context.circulars[normalizedRef]; ok {
 		// circular $ref has been already detected in another explored cycle
 		foundCycle = true
@@ -253,6 +257,7 @@ func (r *schemaLoader) deref(input interface{}, parentRefs []string, basePath st
 	}
 
 	parentRefs = append(parentRefs, normalizedRef.String())
+	verifEv("hop", normalizedRef.String(), normalizedBasePath)
 	return r.deref(input, parentRefs, normalizedBasePath)
 }
 
@@ -288,6 +293,7 @@ func (r *schemaLoader) setSchemaID(target interface{}, id, basePath string) (str
 
 	// store found IDs for possible future reuse in $ref
 	r.cache.Set(newBasePath, target)
+	verifEv("setid", id, newBasePath)
 
 	// the root document has an ID: all $ref relative to that ID may
 	// be rebased relative to the root document
